@@ -58,6 +58,9 @@ def make_circuit(case):
 
 
 def handle(case):
+    if case['k'] in ('repcode', 'simplified', 'multi', 'calib'):      # library-built circuits in the shared Lib/Run.v format
+        import lib_impl
+        return lib_impl.handle(case)
     clear()
     a = export(make_circuit(case))
     clear()
